@@ -10,8 +10,8 @@
      identical descriptors and [eqt v a a = TT] is a theorem (eqt_refl) for every variant.
    * [hash_key v a] is the tuple the __hash__ method feeds to hash(); equal hashes are
      guaranteed for equivalent keys ([key_eqv]); KUnhashable inside = hash() raises.
-   * [variants] are switches for behaviours recorded as findings; the harness measures
-     which variant the code under test exhibits and the shards run against that one. *)
+   * [variants] record the behaviour before two repairs (kept only to state what was wrong);
+     the shards run against [live_variants]. *)
 From Coq Require Import ZArith List Bool.
 From Verif Require Import Base.Num Base.Check C20.Syntax.
 Import ListNotations.
@@ -25,8 +25,11 @@ Record variants := {
   v_arrw_hash_type : bool
 }.
 
-Definition current_variants := {| v_intv_guard := false; v_arrw_hash_type := true |}.
+(* the code before the fixes dd669fb (IntervalProd ndim) and 99fe16d (array-weighting hash) *)
+Definition old_variants := {| v_intv_guard := false; v_arrw_hash_type := true |}.
 Definition repaired_variants := {| v_intv_guard := true; v_arrw_hash_type := false |}.
+(* the code under test: the shards run against this one, unconditionally *)
+Definition live_variants := repaired_variants.
 
 Section M.
 Context {T : Type} `{Num T}.
